@@ -3,7 +3,7 @@ from checks import driver
 
 PROOF_PROPS = {
     "C01": "5/C01", "C02": "5/C02", "C03": "5/C03", "C04": "5/C04", "C05": "5/C05", "C06": "5/C06", "C07": "5/C07",
-    "C13": "5/C13",
+    "C13": "5/C13", "C09": "5/C09", "C19": "5/C19", "C08": "5/C08",
 }
 
 
